@@ -284,6 +284,23 @@ fn enumerate(tier: Tier) -> Box<dyn Iterator<Item = PairCase>> {
     Box::new((0..n * n).map(move |k| PairCase { a: vs2[k / n].clone(), b: vs2[k % n].clone() }))
 }
 
+/// pairs of versions that differ only in one number, both numbers next to the same power of two
+/// or ten (where a narrower type or a packed representation would change its behaviour), at
+/// three positions of the version
+fn enumerate_magnitudes(_t: Tier) -> Box<dyn Iterator<Item = PairCase>> {
+    let ns = crate::engine::gen::magnitude_neighbours(i64::MAX as u64);
+    let mut out = vec![];
+    for (i, a) in ns.iter().enumerate() {
+        for b in ns.iter().skip(i.saturating_sub(3)).take(7) {
+            for (pre, post) in [("", ""), ("1.", ""), ("1.", ".0.0.0.0.0.0.0.1"), ("", "rc1"), ("2.0nb", "")] {
+                out.push(PairCase { a: format!("{}{}{}", pre, a, post), b: format!("{}{}{}", pre, b, post) });
+            }
+            out.push(PairCase { a: format!("1.{}", a), b: format!("1.{}.0.0.0.0.0.0.0.1", b) });
+        }
+    }
+    Box::new(out.into_iter())
+}
+
 pub fn property() -> Property {
     Property {
         id: "C01",
@@ -313,6 +330,12 @@ pub fn property() -> Property {
                 "versions of real pkgsrc packages against edited copies and against each other",
                 real_strategy,
                 |t| t.pick(60_000, 1_000_000),
+                check_pair,
+            ),
+            enumerated_stream(
+                "magnitudes",
+                "pairs differing in one number, both next to the same 2^k / 10^k, at several positions of the version",
+                enumerate_magnitudes,
                 check_pair,
             ),
             enumerated_stream(
